@@ -13,6 +13,12 @@ CHECKS = {
  "C01": ("exploration", "runtime monitoring: history oracle (exactly-once/in-order/byte-exact vs completed sends) over seeded hostile workloads + online wire monitor",
          "Held on N seeded executions of the real chmux endpoints over a harness-owned transport: every received message sequence is compared byte-for-byte with the completed sends of its port (prefix while running, equality at end-of-stream), under random Cfg pairs, chunked/whole/try sends, cancellations at random poll indices, network delays and task-poll deferral. Sampling, not proof.",
          "trusts: tokio runtime, the harness transport (ordered, reliable), the harness oracle; schedules limited to those simnet + H1 + seeded select produce", "DESIGN.md §3 C01", "simnet+wiremon+history"),
+ "C02": ("exploration", "runtime monitoring: online wire monitor (independent decoder) checking credit/chunk invariants at every frame of every execution",
+         "Held at every prefix of the wire trace of N seeded executions: outstanding cost <= advertised receive buffer (credits counted only once handed to the sender), payload <= advertised chunk size, credits granted <= cost handed to the granter; dedicated runs fill the window completely (ratio 1.0 must be reached) with starved credit frames, idle receivers, port batches, empty messages and cancelled histories.",
+         "trusts: the reference decoder's statement of the wire format; the harness's knowledge of delivery times (it owns the transport)", "DESIGN.md §3 C02", "simnet+wiremon"),
+ "C03": ("exploration", "runtime monitoring: pending-operation oracle at virtual-time quiescence of a healthy drained transport + zero-progress frame counter",
+         "Held on N seeded executions: at quiescence (paused clock, all frames released, every receiver consuming) no send/connect is left pending, after histories of cancelled sends (random poll indices, cancel-at-quiescence behind a stalled transport), try_send on full queues, connect(k ports) with left-over credits, and with another port's receiver idle; no operation emitted a PortData frame without ports.",
+         "bounded liveness only: 'eventually' is restated as 'by quiescence'; starvation needing more virtual time than a run is not reached", "DESIGN.md §3 C03", "simnet+wiremon+quiescence"),
 }
 
 NOT_YET = "check not yet implemented in this commit (DESIGN.md §6a gives the order of implementation)"
